@@ -417,7 +417,7 @@ pub fn cfg_for(tier: Tier) -> PicCfg {
 pub fn run(ctx: &Ctx) -> i32 {
     let cfg = cfg_for(ctx.tier);
     let mut reports = vec![super::regression_suite(ctx)];
-    let (cases, len) = ctx.tier.pick((60_000u64, 12usize), (500_000u64, 40usize));
+    let (cases, len) = ctx.tier.pick((60_000u64, 12usize), (800_000u64, 40usize));
     reports.push(exhaustive_suite(ctx, "all_temporal_reference_pairs", 256, &tr_pair_item));
     let (runs, n) = ctx.tier.pick((3u64, 66_000usize), (12u64, 140_000usize));
     reports.push(exhaustive_suite(ctx, "long_disposable_runs", runs, &move |i, acc| long_run_item(i, n, acc)));
